@@ -435,8 +435,12 @@ def threadsafe_async_cache(
                         # Wake up any waiting tasks
                         event.set()
                         # Allow garbage collection and/or another loop
-                        # to take over caching if this failed
-                        del events[key]
+                        # to take over caching if this failed. Another
+                        # loop may already have taken over if this loop
+                        # stopped running in the meantime, in which
+                        # case the marker isn't ours to remove.
+                        if events.get(key, (None, None))[1] is event:
+                            del events[key]
                 return result
 
             # Need to wait for another task, possibly across threads
